@@ -363,6 +363,12 @@ func runCheck(spec *PropSpec, tier string) int {
 	os.RemoveAll(filepath.Join(dir, "scratch"))
 	os.MkdirAll(filepath.Join(dir, "scratch"), 0o755)
 	defer os.RemoveAll(filepath.Join(dir, "scratch"))
+	// replay files of earlier runs of this check are stale (the tree may have changed)
+	if old, _ := filepath.Glob(filepath.Join(verifDir, "replays", spec.ID+"-*.json")); len(old) > 0 {
+		for _, f := range old {
+			os.Remove(f)
+		}
+	}
 	bin, report := build(spec, dir)
 	buildS := time.Since(t0).Seconds()
 
